@@ -321,6 +321,27 @@ class Translator:
             if ctx["validator"] and nm == "ValueError":
                 return "false", "bool"
             raise Unsupported(where, f"raise {nm} outside a validator")
+        if isinstance(st, (ast.Assign, ast.AnnAssign)):
+            # a local name bound once: `x = e` -> `(let x := e; rest)`
+            tg = st.targets[0] if isinstance(st, ast.Assign) and len(st.targets) == 1 else getattr(st, "target", None)
+            if not isinstance(tg, ast.Name) or st.value is None:
+                raise Unsupported(where, "assignment to something other than a local name")
+            if tg.id in ctx["params"] or tg.id in env:
+                raise Unsupported(where, f"re-assignment of {tg.id}")
+            txt, ty = self.expr(st.value, env)
+            env2 = dict(env)
+            env2[tg.id] = ty
+            r_txt, r_ty = self.block(rest, env2, ctx)
+            return f"(let {mangle(tg.id)} := {txt}; {r_txt})", r_ty
+        if isinstance(st, ast.If) and not st.orelse and isinstance(st.test, ast.BoolOp) and isinstance(st.test.op, ast.Or) \
+                and self.isinstance_guard(st.test.values[0]) is not None and self.terminates(st.body):
+            # `if not isinstance(p, C) or A or B: <exit>`  ==  `if not isinstance(p, C): <exit>` ; `if A or B: <exit>`
+            # (Python evaluates A, B only when the isinstance test passed: they see p narrowed)
+            vals = st.test.values
+            first = ast.If(test=vals[0], body=st.body, orelse=[])
+            second_test = vals[1] if len(vals) == 2 else ast.BoolOp(op=ast.Or(), values=vals[1:])
+            second = ast.If(test=second_test, body=st.body, orelse=[])
+            return self.block([first, second] + rest, env, ctx)
         if isinstance(st, ast.If):
             if st.orelse:
                 a_txt, a_ty = self.block(st.body, env, ctx)
